@@ -228,4 +228,14 @@ def build_finite(tier, seed):
                 add_custom_validation(d, "*x != 0.5")
             d.derives = list(der)
             d.unspecified = True
+            # the same trap with Eq alone (Ord has its own gate in the macro)
+            d2 = b.new(inner_float(ty), tags=list(tags))
+            d2.support = list(d.support)
+            d2.vals = list(d.vals)
+            d2.custom = d.custom
+            d2.derives = [t for t in der if t != "Ord"]
+            d2.unspecified = True
+            if d.custom:
+                d2.support = [x.replace(d.type_name + "CustomErr", d2.type_name + "CustomErr") for x in d.support]
+                d2.custom = (d.custom[0], d2.type_name + "CustomErr", d.custom[2])
     return b.decls
